@@ -197,6 +197,16 @@ func init() {
 			if st, ok := a[0].(Str); ok && st.Kind == 0 && !strings.Contains(st.Conc, "%") {
 				return st
 			}
+			// Sprintf("%d", unsigned) is the decimal rendering, the same string strconv.FormatUint gives
+			if st, ok := a[0].(Str); ok && st.Kind == 0 && st.Conc == "%d" {
+				if va := variadicArgs(s, a[1]); len(va) == 1 {
+					if iv, ok := va[0].(If); ok && iv.T != nil {
+						if _, sg, isInt := intWidth(iv.T); isInt && !sg {
+							return encStr("u64dec", Sc{Resize(iv.V.(Sc).T, 64, false)})
+						}
+					}
+				}
+			}
 			return Str{Kind: 1, Atom: e.freshVar(s, "sprintf", BVS(64))}
 		}),
 		"fmt.Sprint": simple(func(e *Engine, s *State, a []Value, at ssa.Instruction, _ *ssa.Function) Value {
